@@ -113,6 +113,13 @@ def run(chk):
     cases = [gen_case(chk.rng, i, chk.tier) for i in range(n)]
     if chk.tier == "thorough":
         cases.append(["case %d" % n, "initvbr 2 44100 %08x" % fbits(0.4), "encode 3000000", "clear"])   # F7 regression
+    # boundary block: every range check of the set-up API at limit-1 / limit / limit+1 with otherwise valid arguments
+    for chn in (-1, 0, 1, 2, 254, 255, 256, 257):
+        for (rate, qb, nom) in ((44100, fbits(0.4), 64000 * max(1, chn)), (8000, fbits(0.1), 16000 * max(1, chn))):
+            cases.append(["case %d" % len(cases), "vbr %d %d %08x" % (chn, rate, qb), "setupinit", "encode 300", "clear"])
+            cases.append(["case %d" % len(cases), "initmanaged %d %d -1 %d -1" % (chn, rate, nom), "encode 300", "clear"])
+    for rate in (-1, 0, 1, 7999, 8000, 8001, 200000, 200001, 2 ** 31 - 1):
+        cases.append(["case %d" % len(cases), "initvbr 2 %d %08x" % (rate, fbits(0.5)), "encode 300", "clear"])
     cases += common.load_corpus("C15", len(cases))
     res = vlib.run_harness_only("c15", cases, timeout=3000)
     crash, ofail, dis = [], [], []
